@@ -15,7 +15,7 @@ var heldIn atomic.Int64
 // readers, a pipe …): an existing file must decrypt whatever the caller keeps
 // it in.
 func decryptHeldAnyhow(file []byte, armored bool, ids ...age.Identity) *ax.Result {
-	kind := ax.SourceKinds[int(heldIn.Add(1))%len(ax.SourceKinds)]
+	kind := ax.SourceKindsOwnFiles[int(heldIn.Add(1))%len(ax.SourceKindsOwnFiles)]
 	if len(file) > 4<<20 {
 		kind = "bytes.Reader"
 	}
